@@ -36,7 +36,9 @@ def splitPath (path : Bytes) : Option (List Bytes × Bytes) :=
   match splitSlash path with
   | [] => none
   | [_] => if path = [] then some ([], []) else none
-  | _ :: rest => some (rest.dropLast, decodeToken (rest.getLast?.getD []))
+  | first :: rest =>
+    -- RFC 6901: a non-empty pointer starts with `/`
+    if first ≠ [] then none else some (rest.dropLast, decodeToken (rest.getLast?.getD []))
 
 inductive Walk (α : Type) where
   | done (con : Node) (a : α)     -- the action ran; `con` is the rebuilt container
@@ -153,7 +155,8 @@ def ensurePath (o : Opts) (r : Root) (path : Bytes) : Outcome Root :=
   match splitSlash path with
   | [] => .ok r
   | [_] => .ok r
-  | _ :: parts =>
+  | first :: parts =>
+    if first ≠ [] then .ok r else        -- no leading `/`: nothing to create, `findObject` rejects it
     match ensure o r.selfCR r.self r.con parts with
     | .ok (con, self) => .ok { r with con := con, self := self }
     | .err e => .err e
